@@ -1135,3 +1135,15 @@ package raft
 //@ ensures !result ==> r.next == old(r.next) && r.state == old(r.state)
 //@ ensures old(r.state) == remoteReplicate ==> result == (rejected > r.match) && (result ==> r.next == r.match + 1)
 //@ ensures old(r.state) != remoteReplicate ==> result == (old(r.next) - 1 == rejected || (old(r.next) == 0 && rejected == MaxUint64)) && (result ==> r.next == max(1, min(rejected, last + 1)))
+
+// ---------------------------------------------------------------- what a Replicate message claims (C02, leader side of log matching)
+// From the property: same entry at the same index everywhere. The follower accepts entries only if its log
+// matches (LogIndex, LogTerm); the leader must therefore announce exactly the index and term of the entry that
+// precedes the ones it sends, send its own entries for the consecutive indexes that follow, and announce its
+// own commit index -- for witnesses too (their entries are stripped of payload, index and term stay).
+//@ func (r *raft) makeReplicateMessage [C02 C03]
+//@ noframe
+//@ requires r.wf() && next >= 1
+//@ ensures result1 == nil ==> result0.Type == pb.Replicate && result0.To == to && result0.LogIndex == next - 1 && result0.LogTerm == r.log.termAt(next - 1) && result0.Commit == r.log.committed
+//@ ensures result1 == nil ==> (forall i int :: 0 <= i && i < len(result0.Entries) ==> result0.Entries[i].Index == next + i && result0.Entries[i].Term == r.log.termRaw(next + i))
+//@ ensures result1 == nil ==> len(result0.Entries) == 0 || next + len(result0.Entries) <= r.log.lastIdx() + 1
